@@ -51,6 +51,11 @@ RULE = ("hist: 5 fixed histories (the deliver / restart / deliver program of fin
         "positions; the walk must yield exactly the non-empty mailboxes of the ordered-map oracle, the scan must remove exactly the expired "
         "messages of ALL mailboxes. The harness's own views (state before/after a reopen, live-vs-fresh) come from separate freshly "
         "constructed store objects; the object under test is never walked by the harness. "
+        "srv: the SERVER, not just the store, is stopped and started again: each incarnation a child process configured through the environment "
+        "(file store on one path, INBUCKET_STORAGE_RETENTIONPERIOD 0 = disabled / 24h / 1h, mailbox cap 0/2/3), server.FullAssembly + Services.Start, "
+        "mails delivered over the real SMTP port, every mailbox listed through the REST API, cancel + Drain + Join; incarnation 2 only lists, "
+        "incarnation 3 delivers once more; ids, subjects, sizes and seen flags after the restart must be those before it (dates are not compared), "
+        "and all listings those of the ordered map (4 cases quick, 16 thorough). "
         "conc: a mailbox of n (250, 40; thorough also 100-400) messages, then several incarnations, each a REAL process whose FIRST accesses to the "
         "mailbox are k (2-8) readers released together from a barrier (GetMessages / GetMessage by id and latest / VisitMailboxes; GOMAXPROCS "
         "untouched), then one mutation, then the next restart; every reader must see exactly the ordered map's listing, no operation may panic, "
@@ -66,7 +71,7 @@ NOT_PROVED = ["visit_complete is completeness only: that the walk yields each ma
 
 
 def nontrivial(kind, ins, outs):
-    if kind in ("reissue", "conc"):
+    if kind in ("reissue", "conc", "srv"):
         return True
     return kind == "hist" and ("R" in ins[2].split(",") or "X" in ins[2].split(",")) and any(o.startswith("res=") and "k" in o for o in outs)
 
